@@ -219,6 +219,42 @@ def stop_source_coverage(cov, ctx, prop_id):
         ctx.extra["source_coverage_of_anchored_files"] = {"error": traceback.format_exc()[-300:]}
 
 
+def extra_seeds_if_source_changed(ctx, mod, prop_id):
+    """
+    The working tree under test is fingerprinted function by function (harness/srcmap.py) against the tree the Lean models were
+    last reconciled with.  Functions of the property's anchored files that changed are listed in the evidence; when there are
+    any, the generated part of the check is repeated under further generator seeds (as long as the quick budget allows), because
+    changed code is exactly where the differential tie between model and code has to be exercised hardest.  Never a verdict.
+    """
+    try:
+        import srcmap
+        ch = srcmap.changed(repo_root(), anchored_files(prop_id))
+    except Exception:
+        ch = None
+    ctx.extra["anchored_source_changed"] = ch if ch is not None else "source-map.json missing"
+    known = [k["signature"] for k in load_known() if k["property"] == prop_id]
+    unknown = lambda: [f for f in ctx.failing if f.get("signature") not in known]
+    if not ch or unknown() or os.environ.get("VERIF_NO_EXTRA_SEEDS") == "1":
+        return
+    base_seed, first_pass = ctx.seed, ctx.elapsed()
+    limit = (240 if ctx.quick else 1500)
+    used = []
+    for k in (1, 2):
+        if unknown() or ctx.mismatches or ctx.elapsed() + first_pass > limit:
+            break
+        ctx.seed = base_seed + 7919 * k
+        used.append(ctx.seed)
+        try:
+            mod.run(ctx)
+        except Infra as e:
+            ctx.count("extra-seed-pass-degenerate")
+        except Exception:
+            ctx.extra["extra_seed_pass_error"] = traceback.format_exc()[-800:]
+            break
+    ctx.extra["extra_seed_passes"] = used
+    ctx.seed = base_seed
+
+
 # ---------------------------------------------------------------- known findings
 def load_known():
     """known-findings.txt: `known: property=<id> <text> ## <json signature>` / `fixed: ...`"""
@@ -282,6 +318,7 @@ class Ctx:
     def fail(self, signature=None, **kw):
         """the property itself fails on the implementation for a concrete input"""
         kw["signature"] = signature or {}
+        kw.setdefault("found_with_seed", self.seed)
         if len(self.failing) < 50:
             self.failing.append(kw)
         self.count("failing_inputs")
@@ -294,7 +331,7 @@ def write_replay(ctx, kind, payload, idx):
     os.makedirs(os.path.join(OUT, "replays"), exist_ok=True)
     rel = os.path.join("replays", f"{ctx.prop}-{ctx.tier}-{ctx.seed}-{idx}.json")
     with open(os.path.join(OUT, rel), "w") as f:
-        json.dump({"property": ctx.prop, "kind": kind, "seed": ctx.seed, "tier": ctx.tier, **payload},
+        json.dump({"property": ctx.prop, "kind": kind, "seed": payload.get("found_with_seed", ctx.seed), "tier": ctx.tier, **payload},
                   f, indent=1, default=str)
     return rel
 
